@@ -263,6 +263,26 @@ GenDoc(type, size) == LET t == Topo(type, size) IN
 ShapeArea(sh) == FoldLeft(LAMBDA acc, t : acc + Area(RectT(t)), 0, sh)
 ShapeMx(sh) == FoldLeft(LAMBDA acc, t : acc + Area(RectT(t)) * Cx2(RectT(t)), 0, sh)
 ShapeMy(sh) == FoldLeft(LAMBDA acc, t : acc + Area(RectT(t)) * Cy2(RectT(t)), 0, sh)
+\* perimeter of the polygon: the perimeters of its rectangles minus twice every boundary two of them share
+SharedLen(a, b) == IF a.x2 = b.x1 \/ b.x2 = a.x1 THEN Mx(0, OvH(a, b))
+                   ELSE IF a.y2 = b.y1 \/ b.y2 = a.y1 THEN Mx(0, OvW(a, b)) ELSE 0
+Perimeter(sh) == FoldLeft(LAMBDA acc, t : acc + 2 * (W(RectT(t)) + H(RectT(t))), 0, sh)
+                 - 2 * FoldLeft(LAMBDA acc, q : acc + SharedLen(RectT(sh[q[1]]), RectT(sh[q[2]])), 0,
+                                SetToSeq({ q \in (DOMAIN sh) \X (DOMAIN sh) : q[1] < q[2] }))
+\* connection weights: <<n, d>> with d in {1, 2}.  Total weight of block i (0-based), in halves
+Halves(w) == (2 * w[1]) \div w[2]
+FsWeightOf(ins, i) == FoldLeft(LAMBDA acc, e : acc + (IF e[1] = i \/ e[2] = i THEN Halves(e[3]) ELSE 0), 0, ins.b2b)
+                      + FoldLeft(LAMBDA acc, e : acc + (IF e[2] = i THEN Halves(e[3]) ELSE 0), 0, ins.p2b)
+FsBlocks(ins) == 0..(Len(ins.blocks) - 1)
+FsPerim(ins, i) == Perimeter(ins.blocks[i + 1].shape)
+\* README: with a density d every weight is scaled by alpha = d * P_k / W_k of the most congested block k (a length:
+\* it scales with the unit of the design, ins.unit)
+FsMostCongested(ins) == CHOOSE k \in FsBlocks(ins) : \A i \in FsBlocks(ins) : FsWeightOf(ins, i) * FsPerim(ins, k) <= FsWeightOf(ins, k) * FsPerim(ins, i)
+FsAlpha(ins) == IF ins.dens = <<>> THEN <<1, 1>>
+                ELSE LET k == FsMostCongested(ins) IN
+                     <<2 * ins.dens[1] * FsPerim(ins, k) * ins.unit[1], ins.dens[2] * FsWeightOf(ins, k) * ins.unit[2]>>
+\* a connection of weight 0 becomes a net of weight 1 (manager.py: `wei if wei > 0 else 1`), in BOTH tables
+FsNetWeight(ins, w) == IF w[1] = 0 THEN <<1, 1>> ELSE <<w[1] * FsAlpha(ins)[1], w[2] * FsAlpha(ins)[2]>>
 ConvertNetlist(inst) ==
   [mods |-> [i \in DOMAIN inst.blocks |-> LET b == inst.blocks[i]
                                               rs == [k \in DOMAIN b.shape |-> b.shape[k] \o <<Ground>>] IN
@@ -271,8 +291,8 @@ ConvertNetlist(inst) ==
                ELSE Mod("M" \o ToString(i - 1), Soft, <<b.area, 1>>,
                         <<ShapeMx(b.shape), ShapeMy(b.shape), 2 * ShapeArea(b.shape)>>, rs)]
             \o [j \in DOMAIN inst.pins |-> Mod("T" \o ToString(j - 1), Terminal, <<0, 1>>, <<2 * inst.pins[j][1], 2 * inst.pins[j][2], 2>>, <<>>)],
-   nets |-> [i \in DOMAIN inst.b2b |-> Net(<<"M" \o ToString(inst.b2b[i][1]), "M" \o ToString(inst.b2b[i][2])>>, inst.b2b[i][3])]
-            \o [i \in DOMAIN inst.p2b |-> Net(<<"T" \o ToString(inst.p2b[i][1]), "M" \o ToString(inst.p2b[i][2])>>, inst.p2b[i][3])]]
+   nets |-> [i \in DOMAIN inst.b2b |-> Net(<<"M" \o ToString(inst.b2b[i][1]), "M" \o ToString(inst.b2b[i][2])>>, FsNetWeight(inst, inst.b2b[i][3]))]
+            \o [i \in DOMAIN inst.p2b |-> Net(<<"T" \o ToString(inst.p2b[i][1]), "M" \o ToString(inst.p2b[i][2])>>, FsNetWeight(inst, inst.p2b[i][3]))]]
 \* the die of the instance: spanned by the pins
 ConvertDie(inst) == [w |-> Max({ inst.pins[j][1] : j \in DOMAIN inst.pins }), h |-> Max({ inst.pins[j][2] : j \in DOMAIN inst.pins }), regs |-> <<>>]
 
@@ -369,10 +389,16 @@ BlockSeqs == { <<Block(1, s, k)>> : s \in DOMAIN Shapes, k \in {"soft", "hard", 
                                                          k2 \in (IF Thorough THEN {"soft", "hard", "fixed"} ELSE {"soft"}) }
 \* (the die is spanned by the pins: some pin has a positive x and some pin a positive y)
 PinSeqs == { << <<12, 6>> >>, << <<0, 6>>, <<12, 2>> >>, << <<12, 6>>, <<5, 0>> >> }
+\* connection rows of weight 0 in BOTH tables (they become nets of weight 1); every wiring keeps a positive weight
+W0 == <<0, 1>>
 Wiring(bs, ps) == { [b2b |-> b, p2b |-> p] :
-                    b \in (IF Len(bs) >= 2 THEN { <<>>, << <<0, 1, W52>> >>, << <<0, 1, One>>, <<1, 0, W52>> >> } ELSE { <<>> }),
-                    p \in { << <<0, 0, One>> >>, << <<Len(ps) - 1, Len(bs) - 1, W52>>, <<0, 0, One>> >> } }
-Instances == UNION { { [blocks |-> bs, pins |-> ps, b2b |-> wr.b2b, p2b |-> wr.p2b] : wr \in Wiring(bs, ps) } : bs \in BlockSeqs, ps \in PinSeqs }
+                    b \in (IF Len(bs) >= 2 THEN { <<>>, << <<0, 1, W52>> >>, << <<0, 1, One>>, <<1, 0, W52>> >>, << <<0, 1, W0>> >> } ELSE { <<>> }),
+                    p \in { << <<0, 0, One>> >>, << <<Len(ps) - 1, Len(bs) - 1, W52>>, <<0, 0, One>> >>,
+                            << <<0, 0, W0>>, <<Len(ps) - 1, Len(bs) - 1, One>> >> } }
+\* a density only for instances whose blocks have the same polygon (their closed vertex lists then need no padding)
+DensChoices(bs) == IF \A i \in DOMAIN bs : Len(bs[i].shape) = Len(bs[1].shape) /\ bs[i].area = bs[1].area THEN { <<>>, <<1, 2>> } ELSE { <<>> }
+Instances == UNION { { [blocks |-> bs, pins |-> ps, b2b |-> wr.b2b, p2b |-> wr.p2b, dens |-> d, unit |-> <<1, 1>>] :
+                         wr \in Wiring(bs, ps), d \in DensChoices(bs) } : bs \in BlockSeqs, ps \in PinSeqs }
 
 Producers == {"die", "alloc", "netgen", "floorset_fpef", "floorset_dief", "rect_netlist", "rect_solution", "legal"}
 Sources(p) == CASE p = "die" -> Dies
@@ -462,10 +488,10 @@ StoreObjs(p) ==
                        [w |-> DieW, h |-> DieH, regs |-> << <<1, 0, 3, 2, "dsp">> >>] >>
     [] p = "alloc" -> << Cell1(<< <<"A", 2>> >>), Cell1(<< <<"A", 1>>, <<"B", 2>> >>), << <<0, 0, 2, 2, "dsp", 1, << <<"B", 4>> >> >>, <<2, 0, 4, 2, Ground, 1, <<>> >> >> >>
     [] p = "netgen" -> << <<"chain", <<2>>>>, <<"ring", <<3>>>>, <<"star", <<4>>>> >>
-    [] p = "floorset_fpef" -> << [blocks |-> <<Block(1, 1, "soft")>>, pins |-> << <<12, 6>> >>, b2b |-> <<>>, p2b |-> << <<0, 0, One>> >>],
-                                 [blocks |-> <<Block(1, 2, "hard")>>, pins |-> << <<12, 6>> >>, b2b |-> <<>>, p2b |-> << <<0, 0, W52>> >>],
+    [] p = "floorset_fpef" -> << [blocks |-> <<Block(1, 1, "soft")>>, pins |-> << <<12, 6>> >>, b2b |-> <<>>, p2b |-> << <<0, 0, One>> >>, dens |-> <<>>, unit |-> <<1, 1>>],
+                                 [blocks |-> <<Block(1, 2, "hard")>>, pins |-> << <<12, 6>> >>, b2b |-> <<>>, p2b |-> << <<0, 0, W52>> >>, dens |-> <<>>, unit |-> <<1, 1>>],
                                  [blocks |-> <<Block(1, 1, "soft"), Block(2, 3, "fixed")>>, pins |-> << <<0, 6>>, <<12, 2>> >>,
-                                  b2b |-> << <<0, 1, W52>> >>, p2b |-> << <<1, 1, One>> >>] >>
+                                  b2b |-> << <<0, 1, W52>> >>, p2b |-> << <<1, 1, One>> >>, dens |-> <<>>, unit |-> <<1, 1>>] >>
     [] p = "rect_netlist" -> << Cell1(<< <<"A", 2>> >>), Cell1(<< <<"A", 1>>, <<"B", 2>> >>), Cell1(<< <<"B", 4>> >>) >>
     [] p = "rect_solution" -> << [net |-> SmallNet({1}, <<>>), result |-> SolvedA],
                                  [net |-> SmallNet({1, 4}, << Net(<<"A", "H">>, W52) >>), result |-> SolvedA],
@@ -557,7 +583,12 @@ SameModsObs(e, o) == /\ Len(e.mods) = Len(o.mods)
                      /\ \A i \in DOMAIN e.mods : \E j \in DOMAIN o.mods : ModMatches(e.mods[i], o.mods[j])
 \* the fourth component of the kind (the module may be flipped) is judged on its own
 SameFlipObs(e, o) == \A i \in DOMAIN e.mods : \A j \in DOMAIN o.mods : e.mods[i].name = o.mods[j].name => e.mods[i].kind[4] = o.mods[j].kind[4]
-SameNetsObs(e, o) == SameBag([i \in DOMAIN e.nets |-> ExpNetKey(e.nets[i])], [i \in DOMAIN o.nets |-> ObsNetKey(o.nets[i])])
+\* (weights within one unit of 1/K: density-scaled weights are not multiples of 1/K)
+NetNear(x, y) == [nm \in Range(x.pins) |-> Count(x.pins, nm)] = [nm \in Range(y.pins) |-> Count(y.pins, nm)] /\ NearQ(y.w, x.w[1], x.w[2])
+SameNetsObs(e, o) == /\ Len(e.nets) = Len(o.nets)
+                     /\ \A i \in DOMAIN e.nets : Cardinality({ j \in DOMAIN o.nets : NetNear(e.nets[i], o.nets[j]) })
+                                                  >= Cardinality({ j \in DOMAIN e.nets : e.nets[j] = e.nets[i] })
+                     /\ \A j \in DOMAIN o.nets : \E i \in DOMAIN e.nets : NetNear(e.nets[i], o.nets[j])
 \* finer than the statement (model conformance only): region tags of the rectangles, order of modules and nets
 TagsAndOrder(e, o) == /\ [i \in DOMAIN e.mods |-> e.mods[i].name] = [i \in DOMAIN o.mods |-> o.mods[i].name]
                       /\ \A i \in DOMAIN e.mods : \A j \in DOMAIN o.mods : e.mods[i].name = o.mods[j].name =>
